@@ -116,6 +116,182 @@ theorem steps_receive_short (ext : Ext) (s : Sock) (hudp : s.tcp = false) (engin
   rw [afterFirst_short ext s engine protocol m hm]
   exact Steps.lift s _ _
 
+/-! ### a split reply that stops half way -/
+
+/-- what the client reads from each datagram of a reply that travels as two or more datagrams: a fragment (first byte
+`FE`) that announces as many fragments as there are datagrams -/
+def PoolOk (engine : Engine) (protocol : Nat) (pool : List Bytes) : Prop :=
+  2 ≤ pool.length → ∀ d ∈ pool, readU8.run d = .ok 0xFE ∧
+    ∃ sp, (splitPacketNew engine protocol).run d = .ok sp ∧ sp.total = pool.length
+
+theorem poolOk_enum (engine : Engine) (protocol : Nat) (frag : Nat → Bytes → Bytes) (mk : Nat → Bytes → SplitPacket)
+    (cs : List Bytes) (hfe : ∀ i ch, readU8.run (frag i ch) = .ok 0xFE)
+    (hparse : ∀ i ch, i < cs.length → (splitPacketNew engine protocol).run (frag i ch) = .ok (mk i ch))
+    (ht : ∀ i ch, (mk i ch).total = cs.length) :
+    PoolOk engine protocol ((Spec.enumFrom 0 cs).map fun p => frag p.1 p.2) := by
+  intro _ d hd
+  obtain ⟨e, he, rfl⟩ := List.mem_map.mp hd
+  have hb := (enumFrom_bounds cs 0 e he).2
+  refine ⟨hfe _ _, mk e.1 e.2, hparse _ _ (by omega), ?_⟩
+  rw [ht, List.length_map, enumFrom_length]
+
+/-- the datagrams of a reply over any transport the engine reads -/
+theorem poolOk_datagrams (ext : Ext) (engine : Engine) (protocol : Nat) (t : Transport)
+    (ht : wfTransport engine t = true) (packet : Bytes) (hbz : BzOk ext packet t) :
+    PoolOk engine protocol (datagrams (withSize engine protocol) t packet) := by
+  cases t with
+  | single => intro h; simp [datagrams] at h
+  | sourceSplit id sizes =>
+    cases engine with
+    | goldSrc f => simp [wfTransport] at ht
+    | source ids =>
+      simp only [wfTransport, Bool.true_and, Bool.and_eq_true, decide_eq_true_eq] at ht
+      have hlen : (chunks sizes packet).length = sizes.length + 1 := chunks_length _ _
+      simp only [datagrams]
+      refine poolOk_enum (.source ids) protocol
+        (fun i ch => sourceFragment (withSize (.source ids) protocol) id (chunks sizes packet).length i ch)
+        (fun i ch => ⟨0xFFFFFFFE, id, (chunks sizes packet).length, i, 1248, none, ch⟩) _ ?_ ?_ (fun _ _ => rfl)
+      · intro i ch
+        unfold sourceFragment
+        simp only [List.append_assoc]
+        exact run_readU8_split _
+      · intro i ch hi
+        exact run_splitPacketNew_source ids protocol id _ i ch ht.1 (by omega) (by omega)
+  | goldSplit id sizes =>
+    cases engine with
+    | source ids => simp [wfTransport] at ht
+    | goldSrc f =>
+      simp only [wfTransport, Bool.true_and, Bool.and_eq_true, decide_eq_true_eq] at ht
+      have hlen : (chunks sizes packet).length = sizes.length + 1 := chunks_length _ _
+      simp only [datagrams]
+      refine poolOk_enum (.goldSrc f) protocol
+        (fun i ch => goldFragment id (chunks sizes packet).length i ch)
+        (fun i ch => ⟨0xFFFFFFFE, id, (chunks sizes packet).length, i, 0, none, ch⟩) _ ?_ ?_ (fun _ _ => rfl)
+      · intro i ch
+        unfold goldFragment
+        simp only [List.append_assoc]
+        exact run_readU8_split _
+      · intro i ch hi
+        exact run_splitPacketNew_gold f protocol id _ i ch ht.1 (by omega) (by omega)
+  | sourceSplitBz id sizes z crc =>
+    cases engine with
+    | goldSrc f => simp [wfTransport] at ht
+    | source ids =>
+      simp only [wfTransport, Bool.true_and, Bool.and_eq_true, decide_eq_true_eq] at ht
+      obtain ⟨⟨⟨hid1, hid2⟩, hsz⟩, hcrc⟩ := ht
+      have hlen : (chunks sizes z).length = sizes.length + 1 := chunks_length _ _
+      have hbig : packet.length < 2 ^ 32 := by
+        have hmax : maxDecompressedSize < 2 ^ 32 := by decide
+        have := hbz.2.2
+        omega
+      simp only [datagrams]
+      · refine poolOk_enum (.source ids) protocol
+          (fun i ch => sourceFragment (withSize (.source ids) protocol) id (chunks sizes z).length i
+            ((if i == 0 then le 4 packet.length ++ le 4 crc else []) ++ ch))
+          (fun i ch => ⟨0xFFFFFFFE, id, (chunks sizes z).length, i, 1248,
+            if i == 0 then some (packet.length, crc) else none, ch⟩) _ ?_ ?_ (fun _ _ => rfl)
+        · intro i ch
+          unfold sourceFragment
+          simp only [List.append_assoc]
+          exact run_readU8_split _
+        · intro i ch hi
+          exact run_splitPacketNew_bz ids protocol id _ i _ crc ch hid1 hid2 (by omega) (by omega) hbig hcrc
+
+/-- `for _ in 1 .. total { receive; SplitPacket::new }` on fragments `r` (fewer than it waits for) followed by a delivery
+`x` at which one more round of the loop ends with the error `e`: the loop ends with `e` -/
+theorem steps_recvChunks_stop (s : Sock) (hudp : s.tcp = false) (engine : Engine) (protocol : Nat) (e : ErrKind)
+    (x : Delivery) (q : List Delivery)
+    (hx : ∀ n fs sn, Steps s (recvChunks s engine protocol (n + 1)) (.err e) ⟨x :: q, fs, sn⟩ ⟨q, fs, sn⟩) :
+    ∀ (r : List Bytes) (n : Nat), r.length < n → (∀ d ∈ r, d.length ≤ PACKET_SIZE) →
+      (∀ d ∈ r, ∃ sp, (splitPacketNew engine protocol).run d = .ok sp) → ∀ fs sn,
+      Steps s (recvChunks s engine protocol n) (.err e) ⟨r.map .data ++ x :: q, fs, sn⟩ ⟨q, fs, sn⟩ := by
+  intro r
+  induction r with
+  | nil =>
+    intro n hn _ _ fs sn
+    obtain ⟨n', rfl⟩ : ∃ n', n = n' + 1 := ⟨n - 1, by simp at hn; omega⟩
+    exact hx n' fs sn
+  | cons d r ih =>
+    intro n hn hfit hparse fs sn
+    obtain ⟨n', rfl⟩ : ∃ n', n = n' + 1 := ⟨n - 1, by simp at hn; omega⟩
+    obtain ⟨sp, hsp⟩ := hparse d (by simp)
+    unfold recvChunks
+    simp only [List.map_cons, List.cons_append]
+    refine Steps.bind (steps_recv s hudp PACKET_SIZE d (hfit d (by simp)) _ fs sn) ?_
+    refine Steps.bind ((Steps.parse s _ d _).congrRes hsp.symm) ?_
+    exact Steps.bind_err (ih n' (by simp at hn; omega) (fun y hy => hfit y (by simp [hy]))
+      (fun y hy => hparse y (by simp [hy])) fs sn)
+
+/-- the loop's next round on a silence -/
+theorem steps_recvChunks_silence (s : Sock) (engine : Engine) (protocol : Nat) (q : List Delivery) (n : Nat)
+    (fs : List Bool) (sn : List (Bytes × Bool)) :
+    Steps s (recvChunks s engine protocol (n + 1)) (.err .packetReceive) ⟨.silence :: q, fs, sn⟩ ⟨q, fs, sn⟩ := by
+  unfold recvChunks
+  exact Steps.bind_err (steps_recv_silence s _ q fs sn)
+
+/-- the loop's next round on a datagram shorter than a packet header -/
+theorem steps_recvChunks_short (s : Sock) (hudp : s.tcp = false) (engine : Engine) (protocol : Nat) (m : Bytes)
+    (hm : m.length < 5) (q : List Delivery) (n : Nat) (fs : List Bool) (sn : List (Bytes × Bool)) :
+    Steps s (recvChunks s engine protocol (n + 1)) (.err .packetUnderflow) ⟨.data m :: q, fs, sn⟩ ⟨q, fs, sn⟩ := by
+  have hsplit : (splitPacketNew engine protocol).run m = .err .packetUnderflow := by
+    unfold splitPacketNew
+    exact run_short .little 4 _ m (by omega)
+  unfold recvChunks
+  refine Steps.bind (steps_recv s hudp PACKET_SIZE m (by unfold PACKET_SIZE; omega) q fs sn) ?_
+  exact Steps.bind_err ((Steps.parse s _ m _).congrRes hsplit.symm)
+
+/-- `receive` on an incomplete selection `got` of the datagrams `pool` of a reply, followed by a delivery `x` on which
+both the first receive of `receive` and a further round of its fragment loop end with the error `e`: `receive` ends with
+`e` having consumed `got` and `x` -/
+theorem steps_receive_stop (ext : Ext) (s : Sock) (hudp : s.tcp = false) (engine : Engine) (protocol : Nat)
+    (e : ErrKind) (x : Delivery) (q : List Delivery)
+    (hx0 : ∀ fs sn, Steps s (receive ext s engine protocol) (.err e) ⟨x :: q, fs, sn⟩ ⟨q, fs, sn⟩)
+    (hx : ∀ n fs sn, Steps s (recvChunks s engine protocol (n + 1)) (.err e) ⟨x :: q, fs, sn⟩ ⟨q, fs, sn⟩)
+    (pool : List Bytes) (hpool : PoolOk engine protocol pool) (hfit : ∀ d ∈ pool, d.length ≤ PACKET_SIZE)
+    (got : List Bytes) (hgot : partOf got pool = true) (fs : List Bool) (sn : List (Bytes × Bool)) :
+    Steps s (receive ext s engine protocol) (.err e) ⟨got.map .data ++ x :: q, fs, sn⟩ ⟨q, fs, sn⟩ := by
+  cases got with
+  | nil => exact hx0 fs sn
+  | cons d r =>
+    have hlen := partOf_length hgot (by simp)
+    have hmem := partOf_mem hgot
+    simp only [List.length_cons] at hlen
+    have hp := hpool (by omega)
+    obtain ⟨hfe, sp, hsp, htot⟩ := hp d (hmem d (by simp))
+    rw [receive_eq]
+    simp only [List.map_cons, List.cons_append]
+    refine Steps.bind (steps_recv s hudp PACKET_SIZE d (hfit d (hmem d (by simp))) _ fs sn) ?_
+    unfold afterFirst
+    refine Steps.bind ((Steps.parse s _ d _).congrRes hfe.symm) ?_
+    simp only [beq_self_eq_true, ↓reduceIte]
+    refine Steps.bind ((Steps.parse s _ d _).congrRes hsp.symm) ?_
+    refine Steps.bind_err (steps_recvChunks_stop s hudp engine protocol e x q hx r (sp.total - 1) (by omega)
+      (fun y hy => hfit y (hmem y (by simp [hy])))
+      (fun y hy => by
+        obtain ⟨_, sp', hsp', _⟩ := hp y (hmem y (by simp [hy]))
+        exact ⟨sp', hsp'⟩) fs sn)
+
+/-- some of the fragments of a split reply (or nothing), then silence: `receive` times out -/
+theorem steps_receive_lost (ext : Ext) (s : Sock) (hudp : s.tcp = false) (engine : Engine) (protocol : Nat)
+    (pool : List Bytes) (hpool : PoolOk engine protocol pool) (hfit : ∀ d ∈ pool, d.length ≤ PACKET_SIZE)
+    (got : List Bytes) (hgot : partOf got pool = true) (q : List Delivery) (fs : List Bool) (sn : List (Bytes × Bool)) :
+    Steps s (receive ext s engine protocol) (.err .packetReceive) ⟨got.map .data ++ .silence :: q, fs, sn⟩ ⟨q, fs, sn⟩ :=
+  steps_receive_stop ext s hudp engine protocol .packetReceive .silence q
+    (fun fs sn => steps_receive_silence ext s engine protocol q fs sn)
+    (fun n fs sn => steps_recvChunks_silence s engine protocol q n fs sn) pool hpool hfit got hgot fs sn
+
+/-- some of the fragments of a split reply (or nothing), then a datagram shorter than a packet header: rejected with
+`PacketUnderflow` -/
+theorem steps_receive_shortAfter (ext : Ext) (s : Sock) (hudp : s.tcp = false) (engine : Engine) (protocol : Nat)
+    (pool : List Bytes) (hpool : PoolOk engine protocol pool) (hfit : ∀ d ∈ pool, d.length ≤ PACKET_SIZE)
+    (got : List Bytes) (hgot : partOf got pool = true) (m : Bytes) (hm : m.length < 5) (q : List Delivery)
+    (fs : List Bool) (sn : List (Bytes × Bool)) :
+    Steps s (receive ext s engine protocol) (.err .packetUnderflow) ⟨got.map .data ++ .data m :: q, fs, sn⟩
+      ⟨q, fs, sn⟩ :=
+  steps_receive_stop ext s hudp engine protocol .packetUnderflow (.data m) q
+    (fun fs sn => steps_receive_short ext s hudp engine protocol m hm q fs sn)
+    (fun n fs sn => steps_recvChunks_short s hudp engine protocol m hm q n fs sn) pool hpool hfit got hgot fs sn
+
 /-! ### the challenge loop under faults -/
 
 /-- the request of kind `kind` carrying the challenge `c` -/
@@ -282,22 +458,29 @@ theorem Attempt.error_timeout (a : Attempt) : a.error.isTimeout = true := by
   split <;> rfl
 
 /-- a failed attempt of the plan: `get_request_data_impl` ends with the attempt's timeout-class error, having consumed
-exactly the attempt's deliveries and flags and sent exactly its requests -/
+exactly the attempt's deliveries (the challenge rounds, the fragments of the split reply that still arrive, the silence)
+and flags and sent exactly its requests -/
 theorem steps_attempt (ext : Ext) (s : Sock) (hudp : s.tcp = false) (engine : Engine) (protocol : Nat) (u : Request)
-    (x : Exchange) (hfit : FitsCh x) (a : Attempt) (q : List Delivery) (fs : List Bool) (sn : List (Bytes × Bool)) :
+    (x : Exchange) (hfit : FitsCh x) (pool : List Bytes) (hpool : PoolOk engine protocol pool)
+    (hpfit : ∀ d ∈ pool, d.length ≤ PACKET_SIZE) (a : Attempt) (ha : a.wf pool = true) (q : List Delivery)
+    (fs : List Bool) (sn : List (Bytes × Bool)) :
     Steps s (requestImpl ext s engine protocol u.kind u.defaultPayload) (.err a.error)
       ⟨a.deliveries x ++ q, a.faults x ++ fs, sn⟩ ⟨q, fs, sn ++ a.sends u x⟩ := by
-  obtain ⟨j, sf⟩ := a
+  obtain ⟨j, sf, got⟩ := a
   have hfit' : ∀ c ∈ x.challenges.take j, (challengeReply c).length ≤ PACKET_SIZE :=
     fun c hc => hfit c (List.mem_of_mem_take hc)
   have hmap : (x.challenges.take j).map (answer u.kind) = (x.challenges.take j).map fun c => unitRequest u (some c) :=
     List.map_congr_left fun c _ => answer_eq u c
   cases sf with
   | false =>
+    have hgot : partOf got pool = true := by simpa [Attempt.wf] using ha
     have h := steps_requestImpl_recv ext s hudp engine protocol u.kind u.defaultPayload (.err .packetReceive)
-      (fun p hp => by cases hp) [.silence] q (by simp) (fun fs sn => steps_receive_silence ext s engine protocol q fs sn)
+      (fun p hp => by cases hp) (got.map .data ++ [.silence]) q (by simp)
+      (fun fs sn => by
+        simpa [List.append_assoc] using
+          steps_receive_lost ext s hudp engine protocol pool hpool hpfit got hgot q fs sn)
       (x.challenges.take j) hfit' fs sn
-    have hs : (Attempt.mk j false).sends u x
+    have hs : (Attempt.mk j false got).sends u x
         = (packetBytes u.kind u.defaultPayload, false) :: (x.challenges.take j).map fun c => (answer u.kind c, false) := by
       simp only [Attempt.sends, requestsUpTo, flagLast_false, List.map_cons, List.map_map, request_bytes]
       congr 1
@@ -306,9 +489,11 @@ theorem steps_attempt (ext : Ext) (s : Sock) (hudp : s.tcp = false) (engine : En
     simpa [Attempt.deliveries, Attempt.faults, Attempt.error, challengeData, challengeDeliveries,
       List.replicate_succ', List.append_assoc] using h
   | true =>
+    have hgot : got = [] := by simpa [Attempt.wf] using ha
+    subst hgot
     have h := steps_requestImpl_sendFault ext s hudp engine protocol u.kind u.defaultPayload q
       (x.challenges.take j) hfit' fs sn
-    have hs : (Attempt.mk j true).sends u x
+    have hs : (Attempt.mk j true []).sends u x
         = flagLast (packetBytes u.kind u.defaultPayload :: (x.challenges.take j).map (answer u.kind)) true := by
       simp only [Attempt.sends, requestsUpTo, request_bytes, hmap]
     rw [hs]
@@ -359,19 +544,25 @@ theorem steps_validAttempt (ext : Ext) (s : Sock) (hudp : s.tcp = false) (engine
   rw [he]
   simpa [Ending.faults, Nat.add_comm] using h
 
-/-- the attempt that receives a datagram shorter than a packet header after `j` challenge rounds -/
+/-- the attempt that receives a datagram shorter than a packet header after `j` challenge rounds and some of the fragments
+of the split reply -/
 theorem steps_malformedAttempt (ext : Ext) (s : Sock) (hudp : s.tcp = false) (engine : Engine) (protocol : Nat)
-    (u : Request) (x : Exchange) (hfit : FitsCh x) (j : Nat) (m : Bytes) (hm : m.length < 5) (arrival : List Bytes)
+    (u : Request) (x : Exchange) (hfit : FitsCh x) (pool : List Bytes) (hpool : PoolOk engine protocol pool)
+    (hpfit : ∀ d ∈ pool, d.length ≤ PACKET_SIZE) (j : Nat) (got : List Bytes) (hgot : partOf got pool = true)
+    (m : Bytes) (hm : m.length < 5) (arrival : List Bytes)
     (q : List Delivery) (fs : List Bool) (sn : List (Bytes × Bool)) :
     Steps s (requestImpl ext s engine protocol u.kind u.defaultPayload) (.err .packetUnderflow)
-      ⟨(Ending.malformed j m).deliveries x arrival ++ q, (Ending.malformed j m).faults x ++ fs, sn⟩
-      ⟨q, fs, sn ++ (Ending.malformed j m).sends u x⟩ := by
+      ⟨(Ending.malformed j got m).deliveries x arrival ++ q, (Ending.malformed j got m).faults x ++ fs, sn⟩
+      ⟨q, fs, sn ++ (Ending.malformed j got m).sends u x⟩ := by
   have hfit' : ∀ c ∈ x.challenges.take j, (challengeReply c).length ≤ PACKET_SIZE :=
     fun c hc => hfit c (List.mem_of_mem_take hc)
   have h := steps_requestImpl_recv ext s hudp engine protocol u.kind u.defaultPayload (.err .packetUnderflow)
-    (fun p hp => by cases hp) [.data m] q (by simp)
-    (fun fs sn => steps_receive_short ext s hudp engine protocol m hm q fs sn) (x.challenges.take j) hfit' fs sn
-  have hs : (Ending.malformed j m).sends u x
+    (fun p hp => by cases hp) (got.map .data ++ [.data m]) q (by simp)
+    (fun fs sn => by
+      simpa [List.append_assoc] using
+        steps_receive_shortAfter ext s hudp engine protocol pool hpool hpfit got hgot m hm q fs sn)
+    (x.challenges.take j) hfit' fs sn
+  have hs : (Ending.malformed j got m).sends u x
       = (packetBytes u.kind u.defaultPayload, false) :: (x.challenges.take j).map fun c => (answer u.kind c, false) := by
     simp only [Ending.sends, requestsUpTo, List.map_cons, List.map_map, request_bytes]
     congr 1
@@ -393,36 +584,52 @@ theorem steps_unit (ext : Ext) (s : Sock) (hudp : s.tcp = false) (engine : Engin
     (arrival : List Bytes)
     (harr : arrival.Perm (datagrams (withSize engine protocol) x.transport (reply kind body)))
     (hfit : ∀ d ∈ exchangeAs x arrival, d.length ≤ PACKET_SIZE)
-    (p : UnitPlan) (hp : wfUnit retries p = true) (q : List Delivery) (fs : List Bool) (sn : List (Bytes × Bool)) :
+    (p : UnitPlan)
+    (hp : wfUnit retries (datagrams (withSize engine protocol) x.transport (reply kind body)) p = true)
+    (q : List Delivery) (fs : List Bool) (sn : List (Bytes × Bool)) :
     Steps s (requestData ext s retries engine protocol u) (unitRes p body)
       ⟨p.deliveries x arrival ++ q, p.faults x ++ fs, sn⟩ ⟨q, fs, sn ++ p.sends u x⟩ := by
   have hch : FitsCh x := fun c hc =>
     hfit _ (by simp only [exchangeAs, List.mem_append, List.mem_map]; exact Or.inl ⟨c, hc, rfl⟩)
-  have hstep := fun a q fs sn => steps_attempt ext s hudp engine protocol u x hch a q fs sn
+  have hpool := poolOk_datagrams ext engine protocol x.transport hx (reply kind body) hbz
+  have hpfit : ∀ d ∈ datagrams (withSize engine protocol) x.transport (reply kind body), d.length ≤ PACKET_SIZE :=
+    fun d hd => hfit d (by simp only [exchangeAs, List.mem_append]; exact Or.inr (harr.symm.subset hd))
+  have hstep := fun a ha q fs sn => steps_attempt ext s hudp engine protocol u x hch _ hpool hpfit a ha q fs sn
   obtain ⟨fails, ending⟩ := p
+  simp only [wfUnit, Bool.and_eq_true, List.all_eq_true] at hp
+  obtain ⟨hfails, hend⟩ := hp
   unfold requestData
   cases ending with
   | valid =>
-    have hlen : fails.length ≤ retries := by simpa [wfUnit] using hp
-    have h := Steps.retry_recovers (Attempt.deliveries x) (Attempt.faults x) (Attempt.sends u x) Attempt.error
+    have hlen : fails.length ≤ retries := by simpa using hend
+    have h := Steps.retry_recovers_of
+      (fun a : Attempt => a.wf (datagrams (withSize engine protocol) x.transport (reply kind body)) = true)
+      (Attempt.deliveries x) (Attempt.faults x) (Attempt.sends u x) Attempt.error
       Attempt.error_timeout hstep (R := .ok body) (fun k hk => by cases hk)
       (Ending.valid.deliveries x arrival ++ q) q (Ending.valid.faults x ++ fs) fs (Ending.valid.sends u x)
       (fun sn => steps_validAttempt ext s hudp engine protocol u kind hkind hk body x hx hbz arrival harr hfit q fs sn)
-      fails retries sn hlen
+      fails retries sn hfails hlen
     simpa [UnitPlan.deliveries, UnitPlan.faults, UnitPlan.sends, unitRes, UnitPlan.error, List.append_assoc] using h
-  | malformed j m =>
-    have hlen : fails.length ≤ retries ∧ m.length < 5 := by simpa [wfUnit] using hp
-    have h := Steps.retry_recovers (Attempt.deliveries x) (Attempt.faults x) (Attempt.sends u x) Attempt.error
+  | malformed j got m =>
+    have hlen : (fails.length ≤ retries ∧ m.length < 5) ∧
+        partOf got (datagrams (withSize engine protocol) x.transport (reply kind body)) = true := by
+      simpa using hend
+    have h := Steps.retry_recovers_of
+      (fun a : Attempt => a.wf (datagrams (withSize engine protocol) x.transport (reply kind body)) = true)
+      (Attempt.deliveries x) (Attempt.faults x) (Attempt.sends u x) Attempt.error
       Attempt.error_timeout hstep (R := (.err .packetUnderflow : Res Bytes)) (fun k hk => by cases hk; rfl)
-      ((Ending.malformed j m).deliveries x arrival ++ q) q ((Ending.malformed j m).faults x ++ fs) fs
-      ((Ending.malformed j m).sends u x)
-      (fun sn => steps_malformedAttempt ext s hudp engine protocol u x hch j m hlen.2 arrival q fs sn)
-      fails retries sn hlen.1
+      ((Ending.malformed j got m).deliveries x arrival ++ q) q ((Ending.malformed j got m).faults x ++ fs) fs
+      ((Ending.malformed j got m).sends u x)
+      (fun sn => steps_malformedAttempt ext s hudp engine protocol u x hch _ hpool hpfit j got hlen.2 m hlen.1.2 arrival
+        q fs sn)
+      fails retries sn hfails hlen.1.1
     simpa [UnitPlan.deliveries, UnitPlan.faults, UnitPlan.sends, unitRes, UnitPlan.error, List.append_assoc] using h
   | gaveUp =>
-    have hlen : fails.length = retries + 1 := by simpa [wfUnit] using hp
-    have h := Steps.retry_exhausted (Attempt.deliveries x) (Attempt.faults x) (Attempt.sends u x) Attempt.error
-      Attempt.error_timeout hstep q fs retries fails sn hlen
+    have hlen : fails.length = retries + 1 := by simpa using hend
+    have h := Steps.retry_exhausted_of
+      (fun a : Attempt => a.wf (datagrams (withSize engine protocol) x.transport (reply kind body)) = true)
+      (Attempt.deliveries x) (Attempt.faults x) (Attempt.sends u x) Attempt.error
+      Attempt.error_timeout hstep q fs retries fails sn hfails hlen
     simpa [UnitPlan.deliveries, UnitPlan.faults, UnitPlan.sends, unitRes, UnitPlan.error, Ending.deliveries,
       Ending.faults, Ending.sends] using h
 
@@ -470,11 +677,12 @@ theorem steps_getServerInfo (ext : Ext) (s : Sock) (hudp : s.tcp = false) (retri
     (hwf : wf cfg st = true) (hx : wfTransport cfg.engine cfg.info.transport = true)
     (hbz : BzOk ext (infoPacket cfg st) cfg.info.transport) (ai : List Bytes)
     (hai : ai.Perm (infoDatagrams cfg st)) (hfit : ∀ d ∈ exchangeAs cfg.info ai, d.length ≤ PACKET_SIZE)
-    (p : UnitPlan) (hp : wfUnit retries p = true) (q : List Delivery) (fs : List Bool) (sn : List (Bytes × Bool)) :
+    (p : UnitPlan) (hp : wfUnit retries (infoDatagrams cfg st) p = true) (q : List Delivery) (fs : List Bool)
+    (sn : List (Bytes × Bool)) :
     Steps s (getServerInfo ext s retries cfg.engine) (unitRes p st.info)
       ⟨p.deliveries cfg.info ai ++ q, p.faults cfg.info ++ fs, sn⟩ ⟨q, fs, sn ++ p.sends .info cfg.info⟩ := by
   unfold getServerInfo
-  rw [infoDatagrams, infoPacket_eq] at hai
+  rw [infoDatagrams, infoPacket_eq] at hai hp
   rw [infoPacket_eq] at hbz
   exact steps_unit_parse (steps_unit ext s hudp cfg.engine 0 retries .info (infoKind cfg.engine) (infoKind_ok _).1
     (infoKind_ok _).2 (infoBody cfg st) cfg.info hx hbz ai hai hfit p hp q fs sn) (run_parseInfo cfg st hwf)
@@ -484,8 +692,8 @@ theorem steps_playersSection (ext : Ext) (s : Sock) (hudp : s.tcp = false) (retr
     (hbz : BzOk ext (reply 0x44 (encPlayers st.players)) cfg.players.transport) (ap : List Bytes)
     (hap : ap.Perm (playersDatagrams cfg st))
     (hfit : ∀ d ∈ sectionAs t cfg.players ap, d.length ≤ PACKET_SIZE)
-    (p : UnitPlan) (hp : (t == .skip || wfUnit retries p) = true) (q : List Delivery) (fs : List Bool)
-    (sn : List (Bytes × Bool)) :
+    (p : UnitPlan) (hp : (t == .skip || wfUnit retries (playersDatagrams cfg st) p) = true) (q : List Delivery)
+    (fs : List Bool) (sn : List (Bytes × Bool)) :
     Steps s (maybeGather t (getServerPlayers ext s retries cfg.engine st.info.protocolVersion))
       (sectionOutcome t p st.players)
       ⟨secDel t cfg.players ap p ++ q, secFlt t cfg.players p ++ fs, sn⟩
@@ -507,8 +715,8 @@ theorem steps_rulesSection (ext : Ext) (s : Sock) (hudp : s.tcp = false) (retrie
     (hbz : BzOk ext (reply 0x45 (encRules st.rules)) cfg.rules.transport) (ar : List Bytes)
     (har : ar.Perm (rulesDatagrams cfg st))
     (hfit : ∀ d ∈ sectionAs t cfg.rules ar, d.length ≤ PACKET_SIZE)
-    (p : UnitPlan) (hp : (t == .skip || wfUnit retries p) = true) (q : List Delivery) (fs : List Bool)
-    (sn : List (Bytes × Bool)) :
+    (p : UnitPlan) (hp : (t == .skip || wfUnit retries (rulesDatagrams cfg st) p) = true) (q : List Delivery)
+    (fs : List Bool) (sn : List (Bytes × Bool)) :
     Steps s (maybeGather t (getServerRules ext s retries cfg.engine st.info.protocolVersion))
       (sectionOutcome t p (expectedRules cfg.engine st.rules))
       ⟨secDel t cfg.rules ar p ++ q, secFlt t cfg.rules p ++ fs, sn⟩
@@ -575,7 +783,7 @@ theorem afterInfo_ok (ext : Ext) (s : Sock) (engine : Engine) (g : Gather) (retr
   simp [afterInfo, h]
 
 theorem wfPlanReached_of_wfPlan (retries : Nat) (cfg : Config) (st : State) (plan : Plan)
-    (h : wfPlan retries cfg plan = true) : wfPlanReached retries cfg st plan = true := by
+    (h : wfPlan retries cfg st plan = true) : wfPlanReached retries cfg st plan = true := by
   simp only [wfPlan, Bool.and_eq_true] at h
   obtain ⟨⟨h1, h2⟩, h3⟩ := h
   simp only [wfPlanReached, h1, h2, Bool.true_and, Bool.or_eq_true, Bool.and_eq_true]
@@ -640,7 +848,7 @@ theorem queryBody_faulty (ext : Ext) (s : Sock) (hudp : s.tcp = false) (retries 
         simpa [List.append_assoc] using hS.outcome w hw
       · rw [hop] at h2 ⊢
         rw [hc]
-        have hpr : (cfg.gather.rules == .skip || wfUnit retries plan.rules) = true := by
+        have hpr : (cfg.gather.rules == .skip || wfUnit retries (rulesDatagrams cfg st) plan.rules) = true := by
           simpa [hc] using hplan
         have h3 := steps_rulesSection ext s hudp retries cfg st hwf cfg.gather.rules hxr hbr ar har hfr plan.rules
           hpr restQ restF
@@ -750,11 +958,11 @@ theorem faultyExpected_stops (cfg : Config) (st : State) (plan : Plan) (u : Requ
 
 /-- … only the units up to it need to be in C10's domain -/
 theorem wfPlanReached_stops (retries : Nat) (cfg : Config) (st : State) (plan : Plan) (u : Request) (k : ErrKind)
-    (hwfu : ∀ v ∈ earlier u ++ [u], toggleOf cfg v ≠ .skip → wfUnit retries (plan.unit v) = true)
+    (hwfu : ∀ v ∈ earlier u ++ [u], toggleOf cfg v ≠ .skip → wfUnit retries (poolOf cfg st v) (plan.unit v) = true)
     (hu : (plan.unit u).error = some k) (ht : toggleOf cfg u = .enforce) :
     wfPlanReached retries cfg st plan = true := by
   have hi := hwfu .info (by cases u <;> simp [earlier]) (toggleOf_info cfg)
-  simp only [Plan.unit] at hi
+  simp only [Plan.unit, poolOf] at hi
   unfold wfPlanReached
   cases u with
   | info =>
@@ -762,12 +970,12 @@ theorem wfPlanReached_stops (retries : Nat) (cfg : Config) (st : State) (plan : 
     simp [hi, hu]
   | players =>
     have hp := hwfu .players (by simp [earlier]) (by rw [ht]; decide)
-    simp only [Plan.unit, toggleOf] at hp hu ht
+    simp only [Plan.unit, toggleOf, poolOf] at hp hu ht
     simp [hi, hp, hu, ht]
   | rules =>
     have hp := hwfu .players (by simp [earlier])
     have hr := hwfu .rules (by simp [earlier]) (by rw [ht]; decide)
-    simp only [Plan.unit, toggleOf] at hp hr hu ht
+    simp only [Plan.unit, toggleOf, poolOf] at hp hr hu ht
     by_cases hs : cfg.gather.players = .skip
     · simp [hi, hs, hr]
     · simp [hi, hp hs, hr]
@@ -919,7 +1127,7 @@ theorem attemptsOf_unit_self (u : Request) (x : Exchange) (hf : freshChallenges 
   cases ending with
   | valid => simp only [Ending.sends, requestsUpTo_all, attemptsOf_map, count_requestsUpTo_self u x _ hf]
   | gaveUp => rfl
-  | malformed j m => simp only [Ending.sends, attemptsOf_map, count_requestsUpTo_self u x _ hf]
+  | malformed j got m => simp only [Ending.sends, attemptsOf_map, count_requestsUpTo_self u x _ hf]
 
 theorem attemptsOf_unit_other (u v : Request) (h : v ≠ u) (x : Exchange) (p : UnitPlan) :
     attemptsOf u (p.sends v x) = 0 := by
@@ -928,7 +1136,7 @@ theorem attemptsOf_unit_other (u v : Request) (h : v ≠ u) (x : Exchange) (p : 
   cases ending with
   | valid => simp only [Ending.sends, requestsUpTo_all, attemptsOf_map, count_requestsUpTo_other u v h]
   | gaveUp => rfl
-  | malformed j m => simp only [Ending.sends, attemptsOf_map, count_requestsUpTo_other u v h]
+  | malformed j got m => simp only [Ending.sends, attemptsOf_map, count_requestsUpTo_other u v h]
 
 /-- attempts of unit `u` among the sends of the units `us` (each listed once) -/
 theorem attemptsOf_sendsOf (cfg : Config) (plan : Plan) (u : Request)
@@ -983,7 +1191,7 @@ theorem error_of_valid {p : UnitPlan} (h : p.ending = .valid) : p.error = none :
 theorem error_of_gaveUp {p : UnitPlan} (h : p.ending = .gaveUp) : p.error = some (lastError Attempt.error p.fails) := by
   simp [UnitPlan.error, h]
 
-theorem error_of_malformed {p : UnitPlan} {j : Nat} {m : Bytes} (h : p.ending = .malformed j m) :
+theorem error_of_malformed {p : UnitPlan} {j : Nat} {got : List Bytes} {m : Bytes} (h : p.ending = .malformed j got m) :
     p.error = some .packetUnderflow := by
   simp [UnitPlan.error, h]
 
@@ -992,7 +1200,7 @@ theorem error_of_not_valid {p : UnitPlan} (h : p.ending ≠ .valid) : ∃ k, p.e
   cases he : p.ending with
   | valid => exact absurd he h
   | gaveUp => exact ⟨_, rfl⟩
-  | malformed j m => exact ⟨_, rfl⟩
+  | malformed j got m => exact ⟨_, rfl⟩
 
 /-- the error of the last of a non-empty list of failed attempts -/
 theorem lastError_append (fails : List Attempt) (a : Attempt) :
